@@ -135,7 +135,7 @@ where
     T: Elem, Tr: ?Sized + TrX, MS: MemBuilder + 'x, MB: MX,
     It: DoubleEndedIterator<Item = any_vec::element::Element<'x, Tr, MS>> + ExactSizeIterator,
 {
-    let mut obs = Vec::with_capacity(pat.n as usize + 1);
+    let mut obs = { let _w = elem::WindowOff::new(); Vec::with_capacity(pat.n as usize + 1) };
     for i in 0..pat.n as usize {
         let len_before = it.len();
         let hint = it.size_hint();
@@ -199,7 +199,7 @@ fn sink_elem<T: Elem, Tr: ?Sized + TrX, MB: MX, V: any_vec::any_value::AnyValueM
 
 /// Drive a typed range iterator (items are owned `T`s).
 fn drive_typed<T: Elem, It: DoubleEndedIterator<Item = T> + ExactSizeIterator>(it: &mut It, pat: Pat) -> Vec<StepObs> {
-    let mut obs = Vec::with_capacity(pat.n as usize + 1);
+    let mut obs = { let _w = elem::WindowOff::new(); Vec::with_capacity(pat.n as usize + 1) };
     for i in 0..pat.n as usize {
         let len_before = it.len();
         let hint = it.size_hint();
@@ -366,7 +366,7 @@ impl<T: Elem + SatisfyTraits<Tr>, M: MX, Tr: TrX + ?Sized> World<T, M, Tr> {
         // (original observations, clone observations)
         type O = (Vec<StepObs>, Vec<StepObs>);
         fn drive<I: DoubleEndedIterator + ExactSizeIterator, F: FnMut(I::Item) -> u16>(it: &mut I, pat: Pat, from: usize, mut f: F) -> Vec<StepObs> {
-            let mut obs = Vec::new();
+            let mut obs = { let _w = elem::WindowOff::new(); Vec::with_capacity(pat.n as usize + 2) };
             for i in from..pat.n as usize {
                 let len_before = it.len();
                 let hint = it.size_hint();
